@@ -90,6 +90,7 @@ struct W1 {
         }
     }
     void check_integration() {
+        if (getenv("W1_NO_C03")) return;   // (debugging aid: lets a run continue past a C03 violation of a deliberately broken tree)
         auto& L = S->cells(); const double dt = T.params.time_step_, damp = T.params.damping_coefficient_;
         if (L.size() != snap.size()) { res.fail("C03", "population_changed", "update_nodes_positions changed the population"); return; }
         if (!bits_equal(S->time(), t_before + dt)) { std::ostringstream d; d << "simulated time went from " << t_before << " to " << S->time() << " with dt " << dt; res.fail("C03", "time", d.str()); }
